@@ -1,0 +1,59 @@
+//go:build verif
+
+// Contracts for package wkbcommon, read by /verif's govc. Comment-only.
+package wkbcommon
+
+// ---------------------------------------------------------------------------
+// C04: the readers are total (no index, slice, conversion or allocation-size panic for any reader
+// behaviour), every count-sized allocation is preceded by the limit check, and what they return is
+// shaped as the geometry constructors need it.
+
+//@ func readFloat
+//@   requires len(buf) >= 8
+//@   modifies nothing
+
+//@ func ReadUInt32
+//@   ensures 0 <= res1 && res1 <= 4294967295
+//@   modifies nothing
+
+//@ func ReadByte
+//@   ensures 0 <= res1 && res1 <= 255
+//@   modifies nothing
+
+//@ func ReadFloatArray
+//@   at alloc-guard: assert n == 8 * len(array)
+//@   modifies array
+//@   loop 1:
+//@     invariant len(buf) == 8 * len(array)
+
+//@ func ReadFlatCoords0
+//@   requires stride >= 0
+//@   at alloc-guard: assert n == stride
+//@   ensures res2 == nil ==> len(res1) == stride && fresh(res1)
+//@   ensures res2 != nil ==> res1 == nil
+//@   modifies nothing
+
+//@ func ReadFlatCoords1
+//@   requires stride >= 0
+//@   at alloc-guard: assert MaxGeometryElements[1] < 0 || n <= mul(MaxGeometryElements[1], stride)
+//@   ensures res2 == nil ==> fresh(res1) && whole(len(res1), stride)
+//@   ensures res2 != nil ==> res1 == nil
+//@   at after:encoding/wkbcommon.ReadFloatArray: assert len(flatCoords) == mul(n, stride)
+//@   modifies nothing
+
+//@ func ReadFlatCoords2
+//@   requires stride >= 0
+//@   at alloc-guard: assert MaxGeometryElements[2] < 0 || n <= MaxGeometryElements[2]
+//@   ensures res3 == nil ==> endsOK(res2, len(res1), stride)
+//@   ensures res3 != nil ==> res1 == nil && res2 == nil
+//@   modifies nothing
+//@   loop 1:
+//@     invariant len(ends) == n && fresh(ends) && (fresh(flatCoordss) || flatCoordss == nil)
+//@     invariant forall i int :: 0 <= i && i < idx ==> 0 <= ends[i] && (i == 0 ? 0 : ends[i-1]) <= ends[i] && ends[i] <= len(flatCoordss) && whole(ends[i] - (i == 0 ? 0 : ends[i-1]), stride)
+//@     invariant len(flatCoordss) == (idx == 0 ? 0 : ends[idx-1])
+
+// options are pure functions WKBParams -> WKBParams supplied by the caller (the package's only
+// constructor returns such a closure); calls through them are not modelled
+//@ func InitWKBParams
+//@   trusted
+//@   modifies nothing
